@@ -1,6 +1,7 @@
 (* C09 — Skip-schemas mode expands all but schemas and keeps their $refs valid. *)
 From Coq Require Import List String Bool.
-From Spec Require Import Base.Json Base.Url Codec.Types Codec.Codec Expand.Expand Expand.ExpandFacts.
+From Spec Require Import Base.Json Base.Url Codec.Types Codec.Gen_Tables Codec.Codec Codec.CodecFacts Expand.Expand Expand.ExpandFacts
+  Expand.ExpandSim Expand.ExpandSimCheck Expand.ExpandCycle Expand.ExpandExample.
 Import ListNotations.
 Local Open Scope string_scope.
 
@@ -30,3 +31,39 @@ Theorem C09_no_follow_for_schema_refs : forall E docs cwd OP ctx_base live follo
   walk E docs cwd OP ctx_base live follow j s parents rroot base = OOF -> from_follow follow parents.
 Proof. exact walk_oof. Qed.
 Print Assumptions C09_no_follow_for_schema_refs.
+
+(* "The result denotes the same trees as the input": the bisimulation theorem of C02 holds in skip mode as well — every
+   schema that comes out of a SkipSchemas walk (its `$ref`s rebased, its sub-schemas walked) is bisimilar, read at the root
+   location, to what went in, read in its own document.  Graph hypotheses decided by check_nodes (it checks the rendering
+   used by skip mode too). *)
+Theorem C09_skip_preserves_meaning : forall E docs cwd OP ctx_base rid nodes live,
+  o_skip OP = true ->
+  check_nodes E docs cwd OP ctx_base rid nodes = true ->
+  (forall lu ld, live = Some (lu, ld) -> doc_at docs cwd lu = Some ld) ->
+  o_cont OP = false ->
+  forall d s parents rroot base j s' j',
+  GN nodes base j -> Inv docs rid s -> Coh cwd rroot base ->
+  exp E docs cwd OP ctx_base live d s parents rroot base j = Done (s', j') ->
+  Inv docs rid s' /\ bisimilar E docs cwd base j ctx_base j'.
+Proof. intros E docs cwd OP ctx_base rid nodes live _. exact (checked_graph_sim E docs cwd OP ctx_base rid nodes live). Qed.
+Print Assumptions C09_skip_preserves_meaning.
+
+(* non-vacuity: a schema of the OTHER document of the example graph, walked in skip mode from the root's point of view:
+   its fragment-only and ../ references are rewritten relative to the root and still mean the same *)
+Definition ex_c : json := match ptr_get ["definitions"; "c"] ex_other with Some j => j | None => JNull end.
+Example C09_example : forall s' j',
+  exp gen_env ex_docs "/" (mkOpts true false false) ex_root_url ex_live 3 ex_s0 [] None ex_other_url ex_c = Done (s', j') ->
+  bisimilar gen_env ex_docs "/" ex_other_url ex_c ex_root_url j'.
+Proof.
+  intros s' j' H. set (OP := mkOpts true false false).
+  assert (Hck : check_nodes gen_env ex_docs "/" OP ex_root_url "" ex_nodes = true) by (vm_compute; reflexivity).
+  assert (Hlive : forall lu ld, ex_live = Some (lu, ld) -> doc_at ex_docs "/" lu = Some ld) by (intros lu ld E; inversion E; subst; vm_compute; reflexivity).
+  assert (Hg : GN ex_nodes ex_other_url ex_c) by (vm_compute; tauto).
+  assert (Hinv : Inv ex_docs "" ex_s0) by (split; [intros u d E; discriminate|reflexivity]).
+  assert (Hcoh : Coh "/" None ex_other_url) by (intros ru E; discriminate).
+  exact (proj2 (C09_skip_preserves_meaning gen_env ex_docs "/" OP ex_root_url "" ex_nodes ex_live eq_refl Hck Hlive eq_refl _ _ _ _ _ _ _ _ Hg Hinv Hcoh H)).
+Qed.
+Example C09_example_runs :
+  exists s', exp gen_env ex_docs "/" (mkOpts true false false) ex_root_url ex_live 3 ex_s0 [] None ex_other_url ex_c
+  = Done (s', JObj [("allOf", JArr [JObj [("$ref", JStr "#/definitions/a")]; JObj [("$ref", JStr "#/definitions/e~0f")]; JObj [("type", JStr "string")]])]).
+Proof. vm_compute. eexists. reflexivity. Qed.
